@@ -61,7 +61,7 @@ T = {
          "secp256k1 add/multiply vs the affine model on complete small groups.", "ec model; SEC 2 constants"),
  "C19": ("model_checking", "6 C19", "exhaustive enumeration of every (v, r, s, z) on tiny curves (loader) + complete alphabet product at full size against the recovery algebra",
          "ecdsa_raw_recover outcome (point or ValueError) vs model on every tuple.", "ecdsa model"),
- "C20": ("model_checking", "6 C20 + 13.1", "explicit-state exploration of call histories over a 150-operation alphabet: every operation alone in a fresh interpreter, adjacent ordered pairs, total orders, systematically generated one-argument-perturbed neighbour calls, operation again after n distinct variant calls, two-thread one-preemption interleavings at the change points of lazily built module state, fresh interpreters under -O; canonical snapshot of constants, argument snapshots and result equality with the fresh interpreter after every call",
+ "C20": ("model_checking", "6 C20 + 13.1", "explicit-state exploration of call histories over a 174-operation alphabet: every operation alone in a fresh interpreter, adjacent ordered pairs, total orders, systematically generated one-argument-perturbed neighbour calls, operation again after n distinct variant calls, two-thread one-preemption interleavings at the change points of lazily built module state, fresh interpreters under -O; canonical snapshot of constants, argument snapshots and result equality with the fresh interpreter after every call",
          "State = canonical snapshot of all py_ecc module and class data; every public operation is a transition; results compared with fresh-interpreter results.",
          "snapshot completeness is guarded by the pair/triple result comparison"),
 }
